@@ -13,7 +13,7 @@ ROLES = [('zwj', lambda n: [n, 0x200D], 1), ('zwnj', lambda n: [n, 0x200C, 0x627
 
 def correspondence(ctx):
     corr = Corr()
-    impl = rle_check(ctx, corr, TABLES + ['ctxrule'], TABLES + ['ctxrule'])
+    impl = rle_check(ctx, corr, TABLES + ['ctxrule', 'zwnj_b2', 'zwnj_a2'], TABLES + ['ctxrule', 'zwnj_b2', 'zwnj_a2'])
     # neighbours: every table boundary (first/last of each run and the code points next to them)
     neigh = set()
     for fn in TABLES:
@@ -61,6 +61,16 @@ def correspondence(ctx):
         k_ = ctx.rng.randrange(1, 120)
         lab_ = [ctx.rng.choice([0x628, 0x627, 0x61])] + [0x64B] * k_ + [0x200C] + [0x64B] * ctx.rng.randrange(0, 120) + [ctx.rng.choice([0x627, 0x628, 0x61])]
         cases.append(f'rule|zwnj|{hexs(lab_)}|{k_ + 1}')
+    # long transparent runs on either side of ZWNJ, of every length up to 70 and a few long ones, ending in a joining
+    # character or in the label edge: the RFC expression has no bound on (T)*
+    T1, T2 = 0x64E, 0x5BF
+    for n in list(range(0, 71)) + [100, 255, 256, 257, 1000] + [x + d for x in getattr(ctx, 'extra_nums', []) if 8 <= x <= 5000 for d in (-1, 0, 1)]:
+        run = [T1 if k % 3 else T2 for k in range(n)]
+        for lab, off in (([0x628] + run + [0x200C, 0x628], n + 1), ([0x628, 0x200C] + run + [0x628], 1), ([0x628] + run + [0x200C] + run + [0x628], n + 1),
+                         ([0x628, 0x200C] + run, 1), (run + [0x200C, 0x628], n), ([0x61] + run + [0x200C, 0x628], n + 1)):
+            cases.append(f'rule|zwnj|{hexs(lab)}|{off}')
+            if n in (0, 1, 29, 30, 31, 32, 64, 100, 1000):
+                cases.append(f'allows.ff|{hexs(lab)}')
     res = run_cases(cases, ctx.work)
 
     def nontrivial(case, impl):
